@@ -24,7 +24,7 @@ RULE = (
     "filtered tree is a subtree of the full one), tree exhausted without one = "
     "violation; the search uses either a fresh dispatcher per node or ONE "
     "dispatcher that is reset and replayed for every node (how tree searches "
-    "and RL loops use it); the same search is run with the default filter of the RL "
+    "and RL loops use it), optionally with the feature observers of an RL environment (is-ready, earliest start time, duration) attached to it; the same search is run with the default filter of the RL "
     "environments when that is not the dominated-operations filter itself. A "
     "template family and four fixed instances whose optimum no non-delay "
     "schedule attains are mixed in. Non-trivial: the filter removed an operation in at least one "
@@ -140,7 +140,9 @@ def strategy(tier):
         big_ok=True,
     )
     inst = gen.weighted((3, _instances(11 if big else 9)), (1, general), (1, _delay_template()))
-    return st.fixed_dictionaries({"inst": inst, "reuse": st.booleans()})
+    return st.fixed_dictionaries(
+        {"inst": inst, "reuse": st.booleans(), "observed": gen.pick([False, True, False, False, False, False])}
+    )
 
 
 def _nondelay_best(inst, bound):
@@ -200,7 +202,22 @@ def default_env_filters(instance):
     ]
 
 
-def search(ctx, inst, instance, opt, filt, stats, reuse=False):
+def _observe(d):
+    """The feature observers an RL environment typically puts on its
+    dispatcher (they read the state the filter reads)."""
+    from job_shop_lib.dispatching.feature_observers import (
+        DurationObserver,
+        EarliestStartTimeObserver,
+        IsReadyObserver,
+    )
+
+    IsReadyObserver(d)
+    EarliestStartTimeObserver(d)
+    DurationObserver(d)
+    return d
+
+
+def search(ctx, inst, instance, opt, filt, stats, reuse=False, observed=False):
     """True iff some history over Dispatcher(instance, filt)
     .available_operations() reaches makespan == opt."""
     n_jobs = len(inst["durations"])
@@ -209,6 +226,8 @@ def search(ctx, inst, instance, opt, filt, stats, reuse=False):
     ]
     seen = set()
     shared = Dispatcher(instance, filt) if reuse else None
+    if shared is not None and observed:
+        _observe(shared)
 
     def rec(prefix):
         if reuse:
@@ -218,6 +237,8 @@ def search(ctx, inst, instance, opt, filt, stats, reuse=False):
             d.reset()
         else:
             d = Dispatcher(instance, filt)
+            if observed:
+                _observe(d)
         m = ref(inst)
         for j, x in prefix:
             d.dispatch(instance.jobs[j][m.next[j]], x)
@@ -268,9 +289,12 @@ def check_case(case, ctx):
     instance = build_instance(inst)
     stats = {"nodes": 0, "pruned_states": 0, "best": float("inf")}
     reuse = bool(case.get("reuse"))
-    found = search(ctx, inst, instance, opt, filter_dominated_operations, stats, reuse)
+    observed = bool(case.get("observed"))
+    found = search(ctx, inst, instance, opt, filter_dominated_operations, stats, reuse, observed)
     if reuse:
         ctx.label("reused_dispatcher")
+    if observed:
+        ctx.label("feature_observers_attached")
     ctx.check(
         stats["best"] >= opt,
         "model-opt-wrong",
